@@ -57,8 +57,7 @@ func envSeed() uint64 {
 }
 
 // Main is the entry point of the simcheck binary.
-func Main(verifDir string) int {
-	args := os.Args[1:]
+func Main(verifDir string, args []string) int {
 	if len(args) == 0 {
 		fmt.Fprintln(os.Stderr, "usage: simcheck run <property> [--tier quick|thorough] [--seconds N] | replay <file> | worker ... | list")
 		return 2
@@ -109,6 +108,31 @@ func Main(verifDir string) int {
 		s := &Supervisor{Prop: p, Tier: tier, Seed: envSeed(), Self: self, VerifDir: verifDir,
 			Workers: workerCount()}
 		return s.RunCheck(seconds)
+	case "one":
+		// debugging aid: simcheck one <property> <run index> [tier]
+		p := Lookup(args[1])
+		idx, _ := strconv.ParseUint(args[2], 10, 64)
+		tier := "quick"
+		if len(args) > 3 {
+			tier = args[3]
+		}
+		s := &Supervisor{Prop: p, Tier: tier, Seed: envSeed(), Self: self, VerifDir: verifDir, Workers: 1}
+		ev := &evaluator{s: s}
+		st := time.Now()
+		res, err := ev.eval(&Command{Op: "one", Index: idx, Log: true})
+		ev.close()
+		if err != nil {
+			fmt.Println("error:", err)
+			return 2
+		}
+		for _, l := range res.Log {
+			fmt.Println(l)
+		}
+		for _, f := range res.Failures {
+			fmt.Printf("FAIL %s [%s] %s\n", f.Invariant, f.Class, f.Detail)
+		}
+		fmt.Printf("events=%d nontrivial=%v sim=%.1fs wall=%v faults=%v\n", res.Events, res.Nontrivial, float64(res.SimNanos)/1e9, time.Since(st), res.Faults)
+		return 0
 	case "replay":
 		if len(args) < 2 {
 			return 2
